@@ -9,6 +9,7 @@ package main
 
 import (
 	"sort"
+	"strconv"
 	"strings"
 )
 
@@ -26,6 +27,22 @@ func (e *env) get(n string) (string, bool) {
 	return "", false
 }
 
+// Named loops: a capture made during iteration i of a loop named lp is reported
+// under lp/i/<name> (nested named loops nest the path). The environment records
+// this with two kinds of marker entries: scopeMark (val = path prefix of the
+// innermost named loop iteration in progress) and resetMark (val = prefix whose
+// earlier bindings a fresh run of that loop replaces). Both are ordinary list
+// entries, so backtracking out of a loop iteration drops them with the bindings.
+const (
+	scopeMark = "\x00scope"
+	resetMark = "\x00reset"
+)
+
+func (e *env) scope() string {
+	v, _ := e.get(scopeMark)
+	return v
+}
+
 func (e *env) toMap() map[string]string {
 	m := map[string]string{}
 	var st []*env
@@ -33,7 +50,17 @@ func (e *env) toMap() map[string]string {
 		st = append(st, e)
 	}
 	for i := len(st) - 1; i >= 0; i-- {
-		m[st[i].name] = st[i].val
+		switch st[i].name {
+		case scopeMark:
+		case resetMark:
+			for k := range m {
+				if strings.HasPrefix(k, st[i].val) {
+					delete(m, k)
+				}
+			}
+		default:
+			m[st[i].name] = st[i].val
+		}
 	}
 	return m
 }
@@ -236,7 +263,7 @@ func (r *Ref) m(t *T, p int, e *env, k kont) bool {
 	case OR:
 		return r.m(t.Kids[0], p, e, k) || (!r.blown && r.m(t.Kids[1], p, e, k))
 	case CAP:
-		return r.m(t.Kids[0], p, e, func(q int, e2 *env) bool { return k(q, &env{t.S, text[p:q], e2}) })
+		return r.m(t.Kids[0], p, e, func(q int, e2 *env) bool { return k(q, &env{e2.scope() + t.S, text[p:q], e2}) })
 	case REF:
 		v, ok := e.get(t.S)
 		if !ok {
@@ -255,6 +282,14 @@ func (r *Ref) m(t *T, p int, e *env, k kont) bool {
 		return r.global(t.S, p, e, k)
 	case LOOP:
 		body := t.Kids[0]
+		enter := func(idx int, e *env) *env { return e }
+		if t.S != "" {
+			parent := e.scope()
+			e = &env{resetMark, parent + t.S + "/", e}
+			enter = func(idx int, e *env) *env { return &env{scopeMark, parent + t.S + "/" + strconv.Itoa(idx) + "/", e} }
+			k0 := k
+			k = func(q int, e2 *env) bool { return k0(q, &env{scopeMark, parent, e2}) }
+		}
 		rem := -1
 		if t.Max != -1 {
 			rem = t.Max - t.Min
@@ -268,7 +303,7 @@ func (r *Ref) m(t *T, p int, e *env, k kont) bool {
 				if rem != -1 && j >= rem {
 					return false
 				}
-				return r.m(body, p, e, func(q int, e2 *env) bool { return q != p && opt(j+1, q, e2) })
+				return r.m(body, p, enter(t.Min+j, e), func(q int, e2 *env) bool { return q != p && opt(j+1, q, e2) })
 			}
 			if t.Fewest {
 				return k(p, e) || (!r.blown && tryBody())
@@ -283,7 +318,7 @@ func (r *Ref) m(t *T, p int, e *env, k kont) bool {
 				}
 				return opt(0, p, e)
 			}
-			return r.m(body, p, e, func(q int, e2 *env) bool { return mand(i+1, q, e2) })
+			return r.m(body, p, enter(i, e), func(q int, e2 *env) bool { return mand(i+1, q, e2) })
 		}
 		return mand(0, p, e)
 	}
